@@ -136,6 +136,15 @@ def dest_collision(exp):
     return None
 
 
+def coerced_paths(case):
+    """the nodes whose name file-name coercion takes over (clause of finding coercion_restyles_term); decided by the
+    model's transliteration of coercion::apply_coercion, asked once per case and only when a name has to be classified"""
+    if "_coerced" not in case:
+        line = common.run_model([plan_request(case, "coerced", case["vline"])])[0].split()
+        case["_coerced"] = {unhex(x).decode("utf-8", "surrogateescape") for x in line[1:]} if line and line[0] == "ok" else set()
+    return case["_coerced"]
+
+
 def clauses(case, exp, got_list, root_filter=False):
     """which listed guard clauses the case touches (decided from the input alone, plus which paths differ)"""
     got = {}
@@ -155,7 +164,13 @@ def clauses(case, exp, got_list, root_filter=False):
                 os.path.normpath(os.path.join(os.path.dirname(p), node[1])) in case["roots"]:
             out.add("UNLISTED:symlink_to_root_dropped:" + p)                  # repaired by ed3f0d7; must not come back
         elif len({st for _, st in occ}) > 1:
-            out.add("two_styles_in_one_name")
+            # the old term is still in the new name: only one of the styles was rewritten (finding two_styles_in_one_name);
+            # everything rewritten but not in the styles of the occurrences: coercion took the name over (by design)
+            news = [os.path.basename(q) for _, q in got.get(p, [])]
+            if len(news) == 1 and rewrite(news[0], case["pairs"])[1] and p not in coerced_paths(case):
+                out.add("two_styles_in_one_name")
+            else:
+                out.add("coercion_restyles_term")
         elif occ and not uniform_style(name, occ[0][1]):
             out.add("coercion_restyles_term")
         else:
@@ -222,6 +237,7 @@ def gen_case(rng, idx):
     cwd = "proj" if rng.random() < 0.8 else gen.render(rng.choice(["snake", "kebab"]), swords) + "_proj"
     tree = {cwd: ("d", 0o755)}
     p_term = rng.choice([0.35, 0.6, 0.85])
+    pairs_now = pairs_for(swords, rwords, enabled)
 
     def fill(prefix, depth):
         for _ in range(rng.randint(1, 4)):
@@ -237,8 +253,19 @@ def gen_case(rng, idx):
                 tree[rel] = ("d", 0o755)
                 fill(rel, depth + 1)
             elif k < 0.48:
-                tree[rel] = ("l", rng.choice(["nowhere", "../x", ".", os.path.basename(prefix)]))
+                # dangling targets, the directory itself, and relative targets that exist — a sibling created so far
+                # (often named with the term, i.e. renamed by the same plan) or the parent through `..`
+                sibs = [os.path.basename(x) for x in tree if os.path.dirname(x) == prefix]
+                targets = ["nowhere", "../x", ".", os.path.basename(prefix), "../" + os.path.basename(prefix)]
+                if sibs:
+                    targets += [rng.choice(sibs), rng.choice(sibs)]
+                tgt = rng.choice(targets)
+                tree[rel] = ("l", tgt)
                 tags.add("symlink")
+                resolved = os.path.normpath(os.path.join(prefix, tgt))
+                tags.add("symlink:dangling" if resolved not in tree else "symlink:resolves")
+                if resolved in tree and any(rewrite(c, pairs_now)[1] for c in resolved.split("/")):
+                    tags.add("symlink:target_renamed_in_same_plan")
             else:
                 tree[rel] = ("f", (rng.choice(gen.FILLER) + "\n").encode(), 0o644)
     fill(cwd, 1)
@@ -278,6 +305,32 @@ def gen_case(rng, idx):
         files = [p for p, n in tree.items() if n[0] == "f"]
         roots = [rng.choice(files)] if files else [cwd]
         tags.add("roots:file")
+    if rng.random() < 0.09:
+        # search paths that are siblings named with the term in two styles — FILES or directories — and a one-word
+        # replacement: each root is conflict-free on its own, their renames share a destination (0109402)
+        rwords = rwords[:1]
+        st_pool = [st for st in ["snake", "kebab", "camel", "screaming_snake"] if st in enabled] or list(enabled)
+        if len(st_pool) >= 2:
+            st1, st2 = rng.sample(st_pool, 2)
+            d = rng.choice([cwd] + dirs)
+            as_files = rng.random() < 0.6
+            ext = rng.choice([".txt", ".rs"]) if as_files else ""
+            made = []
+            for st in (st1, st2):
+                rel = d + "/" + gen.render(st, swords) + ext
+                if not any(x.lower() == rel.lower() for x in tree):
+                    tree[rel] = ("f", b"c\n", 0o644) if as_files else ("d", 0o755)
+                    if not as_files:
+                        tree[rel + "/inner.txt"] = ("f", b"i\n", 0o644)
+                    made.append(rel)
+            if len(made) == 2:
+                roots = made + ([rng.choice(dirs)] if dirs and rng.random() < 0.3 else [])
+                tags.add("roots:colliding_files" if as_files else "roots:colliding_dirs")
+    elif rng.random() < 0.05:
+        files = [p for p, n in tree.items() if n[0] == "f"]      # a symlink as a search root is outside the model
+        if len(files) >= 2:
+            roots = rng.sample(files, 2)
+            tags.add("roots:two_files")
     if any(rewrite(os.path.basename(x), pairs_for(swords, rwords, enabled))[1] for x in roots if x != cwd):
         tags.add("roots:named_with_term")
     search_style = rng.choice(["snake", "snake", "camel", "kebab", "pascal"])
@@ -449,7 +502,33 @@ def run_cli(case):
     return rc, err.decode("utf-8", "replace"), before, after
 
 
+def plan_cli_refuses(ctx, case):
+    """`renamify plan` keeps the roots themselves (no root filter): with two planned renames on one destination it has to
+    refuse — apply would otherwise lose a file (repaired by 0109402).  Returns False after reporting a violation."""
+    exp_u = expected_renames(case, root_filter=False)
+    if not dest_collision(exp_u):
+        return True
+    with common.scratch() as base:
+        common.materialize(base, case["tree"])
+        cwd = os.path.join(base, case["cwd"])
+        args = ["plan"] + [a for a in cli_args(case)[1:] if a != "-y"]
+        rc, out, err = common.cli(args, cwd)
+        plan_path = os.path.join(cwd, ".renamify", "plan.json")
+        planned = json.load(open(plan_path))["paths"] if rc == 0 and os.path.exists(plan_path) else []
+    ctx.count(f"cli:plan_on_shared_destination:rc={rc}")
+    dests = [r.get("new_path") for r in planned]
+    if rc == 0 and len(set(dests)) != len(dests):
+        ctx.violation("input", {"op": "cli-plan", "args": args, **describe(case)},
+                      expected="refusal: two planned renames share a destination",
+                      observed={"rc": rc, "paths": [[os.path.basename(r["path"]), os.path.basename(r["new_path"])] for r in planned]},
+                      note="`plan` accepted a plan in which two renames (found under different search roots) share a destination")
+        return False
+    return True
+
+
 def judge_cli(ctx, case, model_line, model_plan_line):
+    if not plan_cli_refuses(ctx, case):
+        return "VIOLATION"
     rc, err, before, after = run_cli(case)
     exp = expected_renames(case, root_filter=True)
     coll = dest_collision(exp) or reserved_dest(exp)
